@@ -18,8 +18,10 @@ ROOT = os.path.dirname(os.path.dirname(os.path.dirname(os.path.abspath(__file__)
 REPO = os.environ.get("ASL_REPO", "/repo")
 LEAN = os.path.join(ROOT, "lean")
 BUILD = os.path.join(ROOT, ".build")
-EVID = os.path.join(ROOT, "evidence")
-REPLAYS = os.path.join(ROOT, "replays")
+# runs against a scratch copy of the repository (ASL_REPO=...; mutation experiments) must not overwrite the real evidence
+_SCRATCH = os.path.realpath(REPO) != "/repo"
+EVID = os.path.join(ROOT, "evidence") if not _SCRATCH else os.path.join("/tmp", "verif-scratch", "evidence")
+REPLAYS = os.path.join(ROOT, "replays") if not _SCRATCH else os.path.join("/tmp", "verif-scratch", "replays")
 NCPU = os.cpu_count() or 4
 
 ALLOWED_AXIOMS = {"propext", "Classical.choice", "Quot.sound"}
